@@ -6,6 +6,14 @@ CONSTANTS
   Vals <- MCVals
   MaxList = @MAXLIST@
   MaxSteps = @MAXSTEPS@
+  EvKeys <- MCEvKeys
+  ErrKeys <- MCErrKeys
+  EvTs <- MCEvTs
+  Stacks <- MCStacks
+  LinkCls <- MCLinkCls
+  UseStart = @USESTART@
+  StartAttrMax = @STARTATTRMAX@
+  StartLinkMax = @STARTLINKMAX@
 VIEW View
 ACTION_CONSTRAINT EmitEdge
 INVARIANT Inv
